@@ -162,3 +162,26 @@ def is_name(node, name):
 def path_of(node):
     ap = access_path(node) if isinstance(node, (ast.Name, ast.Attribute, ast.Subscript)) else None
     return None if ap is None else ap[0] + ap[1]
+
+
+_NEG = {ast.Lt: ast.GtE, ast.GtE: ast.Lt, ast.Gt: ast.LtE, ast.LtE: ast.Gt, ast.Eq: ast.NotEq, ast.NotEq: ast.Eq,
+        ast.Is: ast.IsNot, ast.IsNot: ast.Is, ast.In: ast.NotIn, ast.NotIn: ast.In}
+_SWAP = {ast.Lt: ast.Gt, ast.Gt: ast.Lt, ast.LtE: ast.GtE, ast.GtE: ast.LtE, ast.Eq: ast.Eq, ast.NotEq: ast.NotEq, ast.Is: ast.Is, ast.IsNot: ast.IsNot}
+
+
+def comparison_holding(expr, pol):
+    """The comparison that holds when the atomic test `expr` takes the side `pol`, in both orientations:
+    [(op class, left, right), (swapped op class, right, left)]; [] if expr is not a single comparison.
+    `a > b` on its false side gives (LtE, a, b) and (GtE, b, a)."""
+    cp = compare_parts(expr)
+    if not cp:
+        return []
+    op, a, b = cp
+    if not pol:
+        op = _NEG.get(op)
+        if op is None:
+            return []
+    out = [(op, a, b)]
+    if op in _SWAP:
+        out.append((_SWAP[op], b, a))
+    return out
